@@ -68,6 +68,7 @@ def snap_copy(x, memo):
         return x
     if id(x) in memo:
         return memo[id(x)]
+    memo.setdefault("__alive__", []).append(x)     # keep originals alive: ids must stay unique
     if isinstance(x, Opaque):
         c = Opaque(x.n, x.truthy)
         memo[id(x)] = c
@@ -199,6 +200,45 @@ class NativeEval:
             return a / b
         raise NativeUnsupported("binop")
 
+    def string_universe(self, lam):
+        """Finite universe for a Str-quantified variable: every string that occurs as a key or
+        element anywhere in the pre/post arguments, the constants of the clause, and one fresh."""
+        out = {"\x00fresh"}
+        for node in ast.walk(lam):
+            if isinstance(node, ast.Constant) and isinstance(node.value, str):
+                out.add(node.value)
+        seen = set()
+
+        def walk(v, d=0):
+            if d > 4 or id(v) in seen:
+                return
+            seen.add(id(v))
+            if isinstance(v, str):
+                out.add(v)
+            elif isinstance(v, dict):
+                for k, x in dict.items(v):
+                    walk(k, d + 1)
+                    walk(x, d + 1)
+            elif isinstance(v, (list, tuple, set, frozenset)):
+                for x in list(v):
+                    walk(x, d + 1)
+            elif callable(v) and hasattr(v, "__code__"):
+                out.update(v.__code__.co_varnames[:v.__code__.co_argcount + 3])
+            else:
+                try:
+                    dd = object.__getattribute__(v, "__dict__")
+                except Exception:
+                    dd = None
+                if isinstance(dd, dict):
+                    for x in dd.values():
+                        walk(x, d + 1)
+        for v in self.env.values():
+            walk(v)
+        if self.snap is not None:
+            for v in self.snap.old_env.values():
+                walk(v)
+        return out
+
     def deep_eq(self, a, b):
         if isinstance(a, PRIMS) or isinstance(b, PRIMS):
             if isinstance(a, PRIMS) and isinstance(b, PRIMS):
@@ -284,11 +324,16 @@ class NativeEval:
                 return NativeEval(dict(self.snap.old_env, **{k: v for k, v in self.env.items() if k not in self.snap.old_env and k != "result"}), self.snap, True).ev(n.args[0])
             if name in ("forall", "exists"):
                 lam = n.args[0]
-                if len(n.args) < 3:
-                    raise NativeUnsupported("unbounded quantifier")
-                lo, hi = self.ev(n.args[1]), self.ev(n.args[2])
                 names = [a.arg for a in lam.args.args]
-                rng = range(lo, hi)
+                if len(n.args) < 3:
+                    kws = {k.arg: k.value for k in n.keywords}
+                    if "ty" in kws and kws["ty"].value == "Str":
+                        rng = sorted(self.string_universe(lam))
+                    else:
+                        raise NativeUnsupported("unbounded quantifier")
+                else:
+                    lo, hi = self.ev(n.args[1]), self.ev(n.args[2])
+                    rng = range(lo, hi)
 
                 def body(vals):
                     env2 = dict(self.env)
@@ -566,7 +611,10 @@ def build_object(cname, depth, ctx, variant=0):
     for f, fty in all_fields(cname).items():
         if f.startswith("?") or f.startswith("__attrs__"):
             continue
-        vals = gen_values(fty, depth, ctx)
+        try:
+            vals = gen_values(fty, depth, ctx)
+        except NativeUnsupported:
+            vals = [None]
         v = vals[variant % len(vals)]
         if isinstance(v, tuple) and len(v) == 2 and v[0] == "__factory__":
             v = v[1]({})
@@ -630,6 +678,8 @@ def run_native(c: S.Contract, env: dict, captures: dict = None) -> NativeOutcome
     for p, ty in c.params.items():
         nm = p.lstrip("*")
         if p.startswith("**"):
+            if isinstance(env.get(nm), dict):
+                kwargs.update(env[nm])
             continue
         if p.startswith("*"):
             if isinstance(env.get(nm), (list, tuple)):
@@ -727,7 +777,7 @@ def enumerate_inputs(c: S.Contract, limit=400, seed=0):
     ctx = {"n": 0}
     for p, ty in list(c.params.items()) + [(k, v) for k, v in c.captures.items()]:
         nm = p.lstrip("*")
-        if p.startswith("**"):
+        if p.startswith("**") and ty.kind == "star":
             continue
         names.append(nm)
         pools.append(gen_values(ty, 2, ctx))
@@ -798,3 +848,21 @@ def _n_builtins_dict(ne):
 @native_spec("dict_nonempty")
 def _n_dict_nonempty(ne, d):
     return len(d) > 0
+
+
+@native_spec("spec_args")
+def _n_spec_args(ne, f):
+    from mako import compat
+    return compat.inspect_getargspec(f)[0]
+
+
+@native_spec("spec_varargs")
+def _n_spec_varargs(ne, f):
+    from mako import compat
+    return compat.inspect_getargspec(f)[1]
+
+
+@native_spec("spec_varkw")
+def _n_spec_varkw(ne, f):
+    from mako import compat
+    return compat.inspect_getargspec(f)[2]
